@@ -34,7 +34,7 @@ PLANS = {
                         "g++ ASan/UBSan runtimes; library assert()s compiled in (asan, fast builds)"],
         "trusted_base": ["harness/circ.hpp legality oracle", "g++ 12 sanitizer runtimes"],
         "runs": flow("c01", C01_PROFILES, "asan", 4000, 12000) + flow("c01", C01_PROFILES, "fast", 0, 60000)
-                + flow("c01", COMB, "asan", 600, 3000)
+                + flow("c01", COMB, "asan", 600, 3000) + [R("h_flow", "asan", "c01.staged", 3000, 12000)]
                 + flow("c01", CROWDED, "asan", 1500, 6000) + flow("c01", CROWDED, "fast", 0, 40000)
                 + flow("c01", FARAWAY, "asan", 2000, 8000) + flow("c01", FARAWAY, "fast", 0, 40000),
     },
@@ -98,8 +98,9 @@ PLANS = {
                 "report, no assert, no non-std exception, CPU budget respected (re-run alone with 10x budget before a hang verdict); "
                 "every case is non-trivial; distinct = profile x feature signature x stage mask",
         "assumptions": ["non-termination is decided as bounded progress: 120 s CPU then 1200 s CPU alone"],
-        "runs": flow("c07", ["general", "degenerate", "big", "wide", "dense", "multirow", "obstruction", "paramfuzz"], "asan", 200, 3000)
-                + flow("c07", ["general", "degenerate", "big", "wide", "dense", "multirow", "obstruction", "paramfuzz"], "ndebug", 200, 3000)
+        "runs": flow("c07", ["general", "big", "wide", "dense", "multirow", "obstruction", "paramfuzz"], "asan", 200, 3000)
+                + flow("c07", ["general", "big", "wide", "dense", "multirow", "obstruction", "paramfuzz"], "ndebug", 200, 3000)
+                + flow("c07", ["degenerate"], "asan", 1000, 6000) + flow("c07", ["degenerate"], "ndebug", 400, 3000)
                 + flow("c07", ["floating"], "asan", 1200, 12000) + flow("c07", ["floating"], "ndebug", 600, 6000)
                 + flow("c07", ["blocked"], "asan", 800, 8000) + flow("c07", ["blocked"], "ndebug", 200, 3000)
                 + flow("c07", ["scale"], "asan", 8, 32) + flow("c07", ["scale"], "fast", 16, 64)
